@@ -91,7 +91,8 @@ class BuilderRoles:
                 r.extend = r.place
             for b in own:
                 S = Sites(lib, b)
-                if S.named("set_check", v.S) and b is not r.place:
+                # the sanitiser stamps CHECK on slots nobody owns; a helper of the placement loop claims the slot (use_index) as well
+                if S.named("set_check", v.S) and b is not r.place and not S.named("use_index", HELPER):
                     r.sanitise = b
             # (the candidate verifier is not a role: it is inlined into find_base by the normal form)
             for nm in ("place", "find_base", "nfa_fn"):
@@ -353,17 +354,36 @@ def _second_pass(ctx, v, NR, b, S, idmap_t, tag, want):
     lib = ctx.lib
     NS = NR.NS
     root = S.root
-    src = C("core::iter::Iterator::enumerate", C("core::slice::iter", F(Par(2), "states")))
-    pulls = [s for s in S.keyed(lambda k: core.callee_base(k) == ITER_NEXT) if s["vw"] is root and m(src, pat.iter_origin(s["args"][0]))]
+    # the pass walks nfa.states with the state's index: `.iter().enumerate()`, or in lock step with state_id_map (`zip`), whose
+    # i-th item is state_id_map[i] (the map has one entry per NFA state: clause map-default-dead)
+    sts = C("core::slice::iter", F(Par(2), "states"))
+    ids = OneOf(lambda t, e: core.same(t, idmap_t), C("core::slice::iter", lambda t, e: core.same(t, idmap_t)))
+    ENUM, ZIP = "core::iter::Iterator::enumerate", "core::iter::Iterator::zip"
+    forms = [(C(ENUM, sts), ("1",), None), (C(ENUM, C(ZIP, sts, ids)), ("1", "0"), ("1", "1")), (C(ENUM, C(ZIP, ids, sts)), ("1", "1"), ("1", "0"))]
+    pulls, form = [], None
+    for fsrc, fst, fown in forms:
+        pulls = [s for s in S.keyed(lambda k: core.callee_base(k) == ITER_NEXT) if s["vw"] is root and m(fsrc, pat.iter_origin(s["args"][0]))]
+        if pulls:
+            form = (fsrc, fst, fown)
+            break
     if len(pulls) != 1:
         ctx.bad("B-FAIL", b, "second-pass:" + tag, b.span, "one pass over nfa.states.iter().enumerate() expected (fail/output_pos transfer)")
         return
+    src, fst, fown = form
     psite = (b.path, pulls[0]["bb"])
     pull = pulls[0]["bb"]
     item = It(src)
+
+    def proj(t, path):
+        for f in path:
+            t = F(t, f, "(tuple)")
+        return t
     i = F(item, "0", "(tuple)")
-    st = F(item, "1", "(tuple)")
-    target = E(F(Par(1), "states"), E(lambda t, e: core.same(t, idmap_t), i))
+    st = proj(item, fst)
+    own = E(lambda t, e: core.same(t, idmap_t), i)
+    if fown:
+        own = OneOf(own, proj(item, fown))
+    target = E(F(Par(1), "states"), own)
     sf = S.named("set_fail", v.S)
     so = S.named("set_output_pos", v.S)
     psw = switches_on(root, lambda d: d[0] == "discr" and d[1][0] == "call" and d[1][3] == psite)
@@ -727,6 +747,16 @@ def rule_sanitiser(ctx, R, NR, BR):
               "the sanitiser must cover every byte 0..=255; iterates %s" % [show(s["args"][0]) for s in pulls])
     if not (ok and okr):
         return
+    # the sanitiser runs for EVERY block it is given: no return before the helper is asked, and once an unused base exists the
+    # 256-byte loop is entered on every path (a "this block has no vacant slot" shortcut must not skip blocks that have some)
+    rets0 = b.return_blocks()
+    free = b.reach(0, avoid_blocks=[ub[0]["bb"]])
+    usw = switches_on(S.root, lambda d: d[0] == "discr" and d[1][0] == "call" and d[1][3] == (b.path, ub[0]["bb"]))
+    oke = not any(rb in free for rb in rets0) and len(usw) == 1 and \
+        not any(rb in b.reach(opt_arms(usw[0][1])[0], avoid_blocks=[pulls[0]["bb"]]) for rb in rets0)
+    ctx.check(oke, "KNOB-SAN3", b, "runs-for-every-block", b.span,
+              "the sanitiser must ask for an unused base and, when there is one, visit all 256 slots — on every path (no early return "
+              "for blocks believed full)")
     psite = (b.path, pulls[0]["bb"])
     c = P(C(anykey, ANY, site=psite))
     idx = B("BitXor", P(C(endswith("::unused_base_in_block"), ANY, ANY)), c)
@@ -836,6 +866,22 @@ def rule_dispatch(ctx, R, NR, BR, rules=None):
                 bool(oks) and bool(v_some & passes) and bool(switches_on(root, lambda d: zero(d) or (d[0] == "bin" and d[1] == "Ne" and zero(("bin", "Eq", d[2], d[3])))))
             ctx.check(okz, "VALID-NONEMPTY", b, "empty-set-rejected:" + tag, b.span,
                       "`nfa.len == 0` must return invalid_argument before the fail/outputs passes and before Ok")
+        # VALID-SCALE: the documented limit on the number of patterns is 2^24 - 1 (values/output positions are 24-bit): a collection of
+        # exactly that many patterns is still built, one more is refused with automaton_scale before the passes
+        # (byte-wise only: the char-wise state keeps a full 32-bit output position and has no such guard)
+        if want("VALID-SCALE") and tag == "bw":
+            is_len = lambda t: m(F(ANY, "len", NR.N), t)
+            sc = {s["bb"] for s in S.named("automaton_scale") if s["vw"] is root}
+            oks = {bi for bi, si, st in b.stmts() if st["k"] == "assign" and st["lhs"]["local"] == 0 and st["rv"]["k"] == "aggregate" and st["rv"].get("variant") == "Ok"}
+            passes = {x["bb"] for x in std + lmc + outs}
+            v_max = cond.explore(root, [0], cond.pin_atoms(is_len, 0xFFFFFF))
+            v_over = cond.explore(root, [0], cond.pin_atoms(is_len, 0x1000000))
+            ok_max = v_max is not None and bool(v_max & passes) and bool(v_max & oks)
+            ok_over = v_over is not None and not (v_over & passes) and not (v_over & oks) and bool(v_over & sc)
+            ctx.check(ok_max, "VALID-SCALE", b, "limit-inclusive:" + tag, b.span,
+                      "a collection of exactly U24::MAX patterns is within the documented limit and must reach the construction passes")
+            ctx.check(ok_over, "VALID-SCALE", b, "limit-enforced:" + tag, b.span,
+                      "more than U24::MAX patterns must be refused with automaton_scale before the construction passes")
         # the nfa handed on is the one add() was called on; add errors are propagated
         if want("VALID-PROP"):
             adds = S.named("add", NR.N)
@@ -963,6 +1009,17 @@ def rule_builder_config(ctx, R):
                 sw = switches_on(S.root, lambda d: d[0] == "bin" and d[1] in ("Ge", "Gt", "Ne", "Lt", "Le", "Eq") and any(x[0] == "param" and x[1] == 2 for x in (d[2], d[3])))
                 panics = [s_["bb"] for s_ in S.calls if s_["key"].startswith("core::panicking::")]
                 ctx.check(len(sw) >= 1 and bool(panics), "BLD-CONF", sb, "rejects-zero:" + tag, sb.span, "num_free_blocks(0) must be refused (documented panic)")
+                # exactly zero is refused: with the argument pinned to 0 no return is reachable, with it pinned to 1 (the smallest
+                # documented value), 2, the default and u32::MAX no panic is
+                is_n = lambda t: t[0] == "param" and t[1] == 2
+                rets = set(sb.return_blocks())
+                v0 = cond.explore(S.root, [0], cond.pin_atoms(is_n, 0))
+                okz = v0 is not None and not (v0 & rets) and bool(v0 & set(panics))
+                bad = [n for n in (1, 2, 16, 0xFFFFFFFF) for vn in [cond.explore(S.root, [0], cond.pin_atoms(is_n, n))]
+                       if vn is None or (vn & set(panics)) or not (vn & rets)]
+                ctx.check(okz and not bad, "BLD-CONF", sb, "refuses-exactly-zero:" + tag, sb.span,
+                          "num_free_blocks(n) must panic for n == 0 and only then (documented: n >= 1); %s"
+                          % ("n = 0 is accepted" if not okz else "refused although valid: n = %s" % bad))
 
 
 def rule_build_entry(ctx, R, NR, BR, rules=None):
